@@ -303,7 +303,7 @@ impl Check for C11 {
         }
         let total = match ctx.tier {
             Tier::Quick => 3000,
-            Tier::Thorough => 20000,
+            Tier::Thorough => 80000,
         };
         prop_loop(ctx, rec, "gen", strategy(), ctx.share(total), judge);
         prop_loop(ctx, rec, "libfs", strategy(), ctx.share(total / 3), judge_libfs);
